@@ -62,7 +62,7 @@ func runC07(c *Ctx) {
 		"proxy/lib.NewProxyEventLogger": "periodic summary: prints a connection count and traffic volumes",
 	}
 	nNew := 0
-	for _, fn := range p.FnsIn() {
+	for _, fn := range append(p.FnsIn(), p.PkgInits()...) {
 		for _, ci := range callsTo(fn, "log.New") {
 			nNew++
 			why, ok := rows[p.FnName(fn)]
@@ -102,6 +102,10 @@ func runC07(c *Ctx) {
 	// ---------- O-2 complete scrubbed lines ----------
 	c.checkScrubberWrite()
 
+	// the scrubber's patterns are fixed at package initialisation: nothing in safelog writes a
+	// package-level variable at run time (a lazily published pattern list lets a concurrent first
+	// use scrub with no pattern at all)
+	c.checkNoSharedState("O-2b the scrubber keeps no mutable package-level state", "common/safelog", p.FnsIn("common/safelog"))
 	// ---------- O-3 events ----------
 	rule3 := "O-3 events are scrubbed before the PT log"
 	nErr := 0
